@@ -192,6 +192,44 @@ void peer_action_after(int kind, uint64_t delay_us) {
   });
 }
 
+// A call that FAILS on an open socket changes nothing: the getters still reflect the calls that succeeded so far.
+// kind 0: listen (system call refused), 1: keepalive option refused, 2: bind refused
+void failed_call(LS &L) {
+  Model &m = L.m;
+  if (m.closed) return;
+  switch (gen(3)) {
+  case 0: {
+    if (m.listening || m.connected) return;
+    int kth = kern::calls_made(kern::SC_LISTEN) + 1;
+    if (m.stream) kern::plan_fail(kern::SC_LISTEN, kth, EADDRINUSE);    // a datagram socket refuses by itself
+    IoResult r = io_call(L, IO_LISTEN);
+    kern::unplan_fail(kern::SC_LISTEN, kth);
+    if (r.ok) violate("call_succeeded_although_refused", "p_socket_listen", "p_socket_listen returned TRUE although listen() was refused");
+    probe("state.failed_listen");
+    break;
+  }
+  case 1: {
+    bool want = !m.keepalive;
+    int kth = kern::calls_made(kern::SC_SETSOCKOPT) + 1;
+    kern::plan_fail(kern::SC_SETSOCKOPT, kth, ENOPROTOOPT);
+    HX_API_V("p_socket_set_keepalive", L.id, false, p_socket_set_keepalive(L.s, want));
+    kern::unplan_fail(kern::SC_SETSOCKOPT, kth);
+    probe("state.failed_keepalive");
+    break;
+  }
+  default: {
+    if (m.bound || m.listening || m.connected) return;
+    int kth = kern::calls_made(kern::SC_BIND) + 1;
+    kern::plan_fail(kern::SC_BIND, kth, EADDRINUSE);
+    IoResult r = io_call(L, IO_BIND, 0);
+    kern::unplan_fail(kern::SC_BIND, kth);
+    if (r.ok) violate("call_succeeded_although_refused", "p_socket_bind", "p_socket_bind returned TRUE although bind() was refused");
+    probe("state.failed_bind");
+  }
+  }
+  check_getters(L, "a call that failed");
+}
+
 void set_ops(LS &L) {
   Model &m = L.m;
   switch (gen(5)) {
@@ -274,7 +312,7 @@ void connected_ops(LS &L, int n) {
       } else set_ops(L);
       break;
     case 7: if (gen(4) == 0) { int how = 1 + (int)gen(3); IoResult r = io_call(L, IO_SHUTDOWN, how); if (r.ok && how == 3 && !L.m.closed) L.m.connected = false; } break;
-    default: set_ops(L);
+    default: if (gen(4) == 0) failed_call(L); else set_ops(L);
     }
     check_getters(L, "operation on connected socket");
   }
@@ -297,7 +335,7 @@ void scenario_client() {
   LS &A = S->a;
   new_socket(A, true, 0);
   int pre = (int)gen(4);
-  for (int i = 0; i < pre; i++) set_ops(A);
+  for (int i = 0; i < pre; i++) { if (gen(5) == 0) failed_call(A); else set_ops(A); }
   if (gen(3) == 0) { IoResult r = io_call(A, IO_BIND, 0); if (!r.ok) violate("bind_failed", "p_socket_bind", "bind to loopback:0 failed (code %d)", r.code); A.m.bound = true; }
   // connect
   Model &m = A.m;
@@ -364,13 +402,17 @@ void scenario_server() {
   LS &A = S->a;
   new_socket(A, true, 0);
   int pre = (int)gen(4);
-  for (int i = 0; i < pre; i++) set_ops(A);
+  for (int i = 0; i < pre; i++) { if (gen(4) == 0) failed_call(A); else set_ops(A); }
   IoResult r = io_call(A, IO_BIND, 0);
   if (!r.ok) violate("bind_failed", "p_socket_bind", "bind failed (code %d)", r.code);
+  A.m.bound = true;
+  int post = (int)gen(3);
+  for (int i = 0; i < post; i++) { if (gen(2) == 0) failed_call(A); else set_ops(A); }
   r = io_call(A, IO_LISTEN);
   if (!r.ok) violate("listen_failed", "p_socket_listen", "listen failed (code %d)", r.code);
   A.m.listening = true;
   check_getters(A, "p_socket_listen");
+  if (ko(A) && ko(A)->backlog != A.m.backlog) violate("listen_backlog_not_applied", "p_socket_listen", "listen() was given backlog %d, the calls made so far imply %d", ko(A)->backlog, A.m.backlog);
   PError *e = nullptr;
   PSocketAddress *la = p_socket_get_local_address(A.s, &e);
   S->lib_port = la ? p_socket_address_get_port(la) : 0;
@@ -410,18 +452,21 @@ void scenario_udp() {
   new_socket(A, false, 0);
   IoResult r = io_call(A, IO_BIND, 0);
   if (!r.ok) violate("bind_failed", "p_socket_bind", "bind failed (code %d)", r.code);
+  A.m.bound = true;
   PError *e = nullptr;
   PSocketAddress *la = p_socket_get_local_address(A.s, &e);
   S->lib_port = la ? p_socket_address_get_port(la) : 0;
   if (la) p_socket_address_free(la);
   int n = (int)gen_range(3, cfg().tier ? 20 : 10);
   for (int i = 0; i < n; i++) {
-    switch (gen(7)) {
+    switch (gen(8)) {
     case 0: case 1: waiting_call(A, IO_RECEIVE_FROM, readable_now(A), 3); break;
     case 2: peer_action_after(3, 100 + gen(3) * 40000 + gen(300000)); break;
     case 3: waiting_call(A, IO_WAIT_IN, readable_now(A), 3); break;
     case 4: { IoResult s = io_call(A, IO_SEND_TO, S->p_port); if (!s.ok && !A.m.closed) violate("send_to_failed", "p_socket_send_to", "send_to failed (code %d)", s.code); break; }
     case 5: if (gen(3) == 0) { IoResult c = io_call(A, IO_CONNECT, S->p_port); if (c.ok) A.m.connected = true; else if (!A.m.closed) violate("connect_failed", "p_socket_connect", "connect on a datagram socket failed (code %d)", c.code); } break;
+    case 6: if (gen(2)) { failed_call(A); break; }
+      // fall through
     default: set_ops(A);
     }
     check_getters(A, "datagram operation");
